@@ -1,4 +1,4 @@
-(* GENERATED by tools/srcfacts from the current Goit sources - do not edit *)
+(* GoRegex.v — the REFERENCE patterns the model and its theorems are written against (the translator's output on the tree the proofs were developed on; no longer regenerated: SrcRegex.v is, and Bridge.v proves the two equivalent on every run) *)
 From Coq Require Import Strings.Byte.
 From Coq Require Import List NArith.
 From Goit Require Import Bytes Regex.
